@@ -431,6 +431,8 @@ def screen_synthetic(cfg):
             return False
         if any(g.min() < 1e-4 for g in st["cutgap"]):
             return False
+        if f == 0 and any(len(x) == 0 for x in st["cutsets"][2]):
+            return False  # S2 of a particle with no neighbour inside the range is 0*log(0) (outside the documented domain)
     for w in SYN["rdelta"]:
         if not maxbin_ok(L, w):
             return False
